@@ -400,6 +400,8 @@ CONST_ITEMS = [
     ("src/enc/constants.rs", "kStaticCommandCodeBits", None),
     ("src/enc/constants.rs", "kStaticDistanceCodeDepth", None),
     ("src/enc/constants.rs", "kStaticDistanceCodeBits", None),
+    ("src/enc/constants.rs", "kUTF8ContextLookup", None),
+    ("src/enc/constants.rs", "kSigned3BitContextLookup", None),
     ("src/enc/brotli_bit_stream.rs", "kStorageOrder", None),
     ("src/enc/brotli_bit_stream.rs", "kHuffmanBitLengthHuffmanCodeSymbols", None),
     ("src/enc/brotli_bit_stream.rs", "kHuffmanBitLengthHuffmanCodeBitLengths", None),
